@@ -111,6 +111,18 @@ def check(ctx: Ctx) -> str:
                     ctx.check(ok, f"{mod}:{fn.name}:{p}", f"{mod}:{astq.qualname(fn)}", f"default for `{p}` applied under `{t_}`",
                               f"{astq.qualname(fn)} replaces the optional argument `{p}` by its default under `{t_}`: an explicit falsy value (0, '') is overridden by the default, so e.g. leeway=0 is ignored and the result exceeds the requested bound",
                               f"{m.rel}:{node.lineno}", detail={"function": astq.qualname(fn), "parameter": p, "test": t_})
+            # the same slip without an `if`: `p = p or <default>` / `p = <default> if not p else p`
+            for node in ast.walk(fn):
+                if not (isinstance(node, ast.Assign) and len(node.targets) == 1 and isinstance(node.targets[0], ast.Name) and node.targets[0].id in none_params):
+                    continue
+                p = node.targets[0].id
+                v = node.value
+                falsy = (isinstance(v, ast.BoolOp) and isinstance(v.op, ast.Or) and isinstance(v.values[0], ast.Name) and v.values[0].id == p) or (
+                    isinstance(v, ast.IfExp) and any(isinstance(x, ast.Name) and x.id == p for x in ast.walk(v.test)) and not any(isinstance(x, ast.Compare) and any(isinstance(o, (ast.Is, ast.IsNot)) for o in x.ops) for x in ast.walk(v.test)))
+                if falsy:
+                    n5 += 1
+                    ctx.bad(f"{mod}:{astq.qualname(fn)}", f"default for `{p}` applied by truthiness (`{ast.unparse(node)[:50]}`)",
+                            f"{astq.qualname(fn)} replaces the optional argument `{p}` with `{ast.unparse(node)}`: an explicit falsy value (0, '') is overridden by the default - `replace(old, new, 0)` replaces every occurrence instead of none", f"{m.rel}:{node.lineno}")
     ctx.floor("None-defaulted parameters", n5, 4)
 
     ctx.rule("R6", "urlencode: url_quote percent-encodes the unmodified bytes with safe = b'' for query strings (b'/' otherwise) and only afterwards rewrites %20 to + for query strings - a literal '+' or '&' in the data is always encoded; do_urlencode quotes keys and values with for_qs=True")
